@@ -29,6 +29,11 @@ def run(ctx):
     check_stride(ctx, prog)
     check_sha_padding(ctx, prog)
     check_decode(ctx, prog)
+    # Url::parseQuery(Url::params(d)) = d rests on String::split(sep1, sep2): keys and values are cut at the first separator, an
+    # empty value is a value
+    import C03
+    sp = ir.load_units([os.path.join(ir.REPO, 'src', 'String.cpp')]) if not any(f.get('pq') == 'asl::String::trimmed' and f.get('body') for f in prog.functions) else prog
+    C03.check_split_dic(ctx, sp, rule='C15.query')
     return __doc__.split('\n\n', 1)[1]
 
 
